@@ -1,4 +1,5 @@
 import VsbModel.Model.FileReader
+import VsbModel.Props.C01
 set_option linter.unusedSimpArgs false
 
 /-!
@@ -171,5 +172,54 @@ theorem record_describes_restore (zero : α) (size : Nat) (pass1 pass2 : List (L
 example : readFile (0 : Nat) [[1, 2], [3, 4], []] 6 [3, 3, 3, 3, 3, 3, 3] = ([1, 2, 3, 4, 0, 0], 4, [1, 2, 3, 4]) := by decide
 /-- …and one that grew: only the announced 3 bytes are taken. -/
 example : readFile (0 : Nat) [[1, 2, 3, 4, 5]] 3 [8, 8, 8, 8] = ([1, 2, 3], 3, [1, 2, 3]) := by decide
+
+/-! ### From the reader to restore: the archive entry of a file that changed is `padded`, and restores to the bytes read -/
+
+/-- The archive entry `addFile` writes for a stored file is the bytes that were read and hashed, followed by zeros up to the
+announced size - the form `Restore.padded` gives to the entries of a logical backup (`LBackup.pad`). -/
+theorem unique_entry_padded (zero : α) (size : Nat) (pass1 pass2 : List (List α)) (bufs1 bufs2 : List Nat)
+    (known : List α → Bool)
+    (hp2 : ∀ b ∈ bufs2, 0 < b) (hl2 : size < bufs2.length)
+    (hashed entry : List α) (n : Nat)
+    (h : addFile zero size pass1 pass2 bufs1 bufs2 known = .unique hashed n entry) (hne : hashed ≠ []) (p : String) :
+    entry = Restore.padded (fun _ => List.replicate (size - n) zero) p hashed := by
+  have r2 := reader_spec zero pass2 size bufs2 hp2 hl2
+  simp only [] at r2
+  unfold addFile at h
+  by_cases hs : size = 0
+  · simp [hs] at h
+  · simp only [hs, if_false] at h
+    by_cases hk : known (readFile zero pass1 size bufs1).2.2 = true
+    · simp [hk] at h
+    · simp only [hk, Bool.false_eq_true, if_false, Outcome.unique.injEq] at h
+      obtain ⟨h1, h2, h3⟩ := h
+      subst h1 h2 h3
+      have hne' : (readFile zero pass2 size bufs2).2.2.isEmpty = false := by
+        cases hq : (readFile zero pass2 size bufs2).2.2 with
+        | nil => exact absurd hq hne
+        | cons _ _ => rfl
+      simp only [Restore.padded, hne', Bool.false_eq_true, if_false]
+      exact r2.2.2.2.1
+
+/-- **changed_file_restores** (C15's "the recorded size and hash describe precisely the bytes restore will produce", through
+C01's `restore_exact`).  In a group as `vsb backup` writes it - every stored file's archive entry being its content followed
+by arbitrary padding `lb.pad` (zeros up to the size announced before the file shrank; `unique_entry_padded`), its record
+carrying the length and hash of the content alone - restoring any well-formed, resolvable target exits 0 and every file,
+padded entry or not, holds exactly its content: the bytes that were read and hashed. -/
+theorem changed_file_restores {H β : Type} [DecidableEq H] (hashOf : List β → H) (hinj : ∀ a b : List β, hashOf a = hashOf b → a = b)
+    (lg : List (Restore.LBackup β)) (group : List (Restore.Backup H β))
+    (hG : ∀ (j : Nat) (lb : Restore.LBackup β), lg[j]? = some lb → group[j]? = some (Restore.render hashOf lb))
+    (t : Nat) (lt : Restore.LBackup β) (hlt : lg[t]? = some lt)
+    (hwf : ∀ (j : Nat) (lb : Restore.LBackup β), j ≤ t → lg[j]? = some lb → Restore.WFArchive lb.es)
+    (hres : Restore.ResolvableL lg t lt) :
+    ∃ fs, Restore.restore hashOf group t = .done fs true ∧
+      ∀ p m d, Restore.Entry.file p m d ∈ lt.es → Restore.fsGet fs (Restore.fpOf (.file p m d : Restore.Entry β)) = some (.file d (some m)) := by
+  obtain ⟨fs, h1, h2⟩ := Restore.restore_exact hashOf hinj lg group hG t lt hlt hwf hres
+  exact ⟨fs, h1, fun p m d he => by
+    rw [h2]
+    exact Restore.fsGet_map_mem lt.es Restore.nodeOf _ he (hwf t lt (Nat.le_refl _) hlt).nodup⟩
+
+/-- Non-vacuity of the padded form: the entry of a file announced with 6 bytes of which 4 were there. -/
+example : Restore.padded (fun _ => List.replicate (6 - 4) (0 : Nat)) "f" [1, 2, 3, 4] = [1, 2, 3, 4, 0, 0] := by decide
 
 end Vsb.FileReader
